@@ -601,56 +601,122 @@ def dt2(ctx, R):
                     "carry a different dtype than non-empty ones and than channel.dtype" % (",".join(sorted(acc)), unparse(dt)))
 
 
+def _referenced_region(prog, fi, depth=2):
+    """fi plus the module functions it refers to by name (called or passed around)"""
+    out, seen, frontier = [fi], {fi.qual}, [fi]
+    for _ in range(depth):
+        nxt = []
+        for f in frontier:
+            for n in ast.walk(f.node):
+                if isinstance(n, (ast.Name, ast.Attribute)):
+                    r = prog.resolve_expr(f.module, n)
+                    if r and r[0] == "func" and r[1].qual not in seen:
+                        seen.add(r[1].qual)
+                        out.append(r[1])
+                        nxt.append(r[1])
+        frontier = nxt
+    return out
+
+
+def _np_dtype_of_canon(v):
+    """numpy dtype denoted by a canonical value  numpy.dtype(<const>)  or a dtype string constant, else None"""
+    import numpy as np
+    try:
+        if isinstance(v, tuple) and v and v[0] == "call" and str(v[1]).endswith("dtype") and v[2] and v[2][0][0] == "const":
+            return np.dtype(v[2][0][1])
+        if isinstance(v, tuple) and v and v[0] == "ext" and v[1].startswith("numpy."):
+            return np.dtype(getattr(np, v[1].split(".", 1)[1]))
+    except Exception:
+        return None
+    return None
+
+
 @rule("DT3", "raw dtype table and data receivers agree category by category", floor=4)
 def dt3(ctx, R):
+    import numpy as np
+    from .sym import Sym, show, eval_cond
+    from .sem import leaves, flat_conds, find, W
     prog = ctx.prog
     rd = prog.func("tdms.TdmsChannel._raw_data_dtype")
     gr = prog.func("channel_data.get_data_receiver")
-    src_rd = unparse(rd.node)
-    # _raw_data_dtype: String -> object, TimeStamp -> M8[us], nptype -> nptype, else void
-    cats = {}
-    for n in walk_body(rd.node):
-        if isinstance(n, ast.If):
-            t = unparse(n.test)
-            r = [s for s in n.body if isinstance(s, ast.Return)]
-            if r:
-                cats[t] = unparse(r[0].value)
-    def find(sub):
-        for t, v in cats.items():
-            if sub in t:
-                return v
-        return None
-    R.check(find("types.String") in ("np.dtype('O')", "np.dtype(object)", "np.dtype('object')"), "tdms.TdmsChannel._raw_data_dtype::String", rd.where(),
-            "strings -> object", "string channels do not declare dtype object (got %s)" % find("types.String"))
-    ts = find("types.TimeStamp")
-    R.check(ts is not None and ("M8[us]" in ts or "datetime64[us]" in ts), "tdms.TdmsChannel._raw_data_dtype::TimeStamp", rd.where(),
-            "timestamps -> datetime64[us]", "timestamp channels do not declare datetime64[us] (got %s)" % ts)
-    nt = find("nptype is not None")
-    R.check(nt is not None and nt.endswith("data_type.nptype"), "tdms.TdmsChannel._raw_data_dtype::numeric", rd.where(),
-            "numeric -> the type's nptype", "numeric channels do not declare data_type.nptype (got %s)" % nt)
-    # receivers
-    tr = prog.func("channel_data.TimestampDataReceiver.__init__")
-    txt = unparse(tr.node)
-    R.check("datetime64[us]" in txt or "M8[us]" in txt, "channel_data.TimestampDataReceiver::datetime64[us] storage", tr.where(),
-            "non-raw timestamps are stored as datetime64[us]", "timestamp receiver does not allocate datetime64[us]")
-    lr = prog.func("channel_data.ListDataReceiver.__init__")
-    R.check("np.dtype('O')" in unparse(lr.node) or "object" in unparse(lr.node), "channel_data.ListDataReceiver::object storage", lr.where(),
+    DT = ("self", "data_type")
+    v = Sym(prog, rd, rd.cls).function_value()
+
+    def pick(val, scenario):
+        """the leaves selected when the data type is as in the scenario"""
+        def orc(c):
+            if isinstance(c, tuple) and len(c) == 4 and c[0] == "cmp" and c[1] in ("is", "=="):
+                for a, b in ((c[2], c[3]), (c[3], c[2])):
+                    if a == scenario["dt"] and b[0] == "class":
+                        return b[1] == scenario.get("cls")
+                    if a == scenario["dt"] and b == ("const", None):
+                        return scenario.get("cls") is None and scenario.get("none", False)
+                    if a == ("attr", scenario["dt"], "nptype") and b == ("const", None):
+                        return not scenario.get("nptype", True)
+            return None
+        out = []
+        for conds, leaf in leaves(val):
+            vals = [eval_cond(c, orc) for c in conds]
+            if any(x is False for x in vals):
+                continue
+            out.append(leaf)
+        return out
+    got = pick(v, {"dt": DT, "cls": "types.String", "nptype": False})
+    R.check(len(got) == 1 and _np_dtype_of_canon(got[0]) == np.dtype("O"), "tdms.TdmsChannel._raw_data_dtype::String", rd.where(),
+            "strings -> object", "string channels do not declare dtype object (got %s)" % [show(x)[:60] for x in got])
+    got = pick(v, {"dt": DT, "cls": "types.TimeStamp", "nptype": True})
+    R.check(len(got) == 1 and _np_dtype_of_canon(got[0]) == np.dtype("M8[us]"), "tdms.TdmsChannel._raw_data_dtype::TimeStamp", rd.where(),
+            "timestamps -> datetime64[us]", "timestamp channels do not declare datetime64[us] (got %s)" % [show(x)[:60] for x in got])
+    got = pick(v, {"dt": DT, "cls": "types.Int32", "nptype": True})
+    R.check(len(got) == 1 and got[0] == ("attr", DT, "nptype"), "tdms.TdmsChannel._raw_data_dtype::numeric", rd.where(),
+            "numeric -> the type's nptype", "numeric channels do not declare data_type.nptype (got %s)" % [show(x)[:60] for x in got])
+    # receivers: constants of the allocation code (constructor and the module helpers it refers to)
+    def dtype_consts(q):
+        f = prog.func(q)
+        out = set()
+        for g in _referenced_region(prog, f):
+            for n in ast.walk(g.node):
+                if isinstance(n, ast.Constant) and isinstance(n.value, str):
+                    try:
+                        out.add(np.dtype(n.value))
+                    except Exception:
+                        pass
+                if isinstance(n, ast.Name) and n.id == "object":
+                    out.add(np.dtype("O"))
+        return f, out
+    tr, consts = dtype_consts("channel_data.TimestampDataReceiver.__init__")
+    R.check(np.dtype("M8[us]") in consts and not any(c.kind == "M" and c != np.dtype("M8[us]") for c in consts), "channel_data.TimestampDataReceiver::datetime64[us] storage", tr.where(),
+            "non-raw timestamps are stored as datetime64[us]", "timestamp receiver does not allocate datetime64[us] (dtypes named: %s)" % sorted(str(c) for c in consts))
+    lr, consts = dtype_consts("channel_data.ListDataReceiver.__init__")
+    R.check(np.dtype("O") in consts, "channel_data.ListDataReceiver::object storage", lr.where(),
             "string data becomes an object array", "list receiver does not produce object arrays for strings")
     nr = prog.func("channel_data.NumpyDataReceiver.__init__")
-    R.check("obj.data_type.nptype" in unparse(nr.node), "channel_data.NumpyDataReceiver::nptype storage", nr.where(),
+    uses_nptype = any(isinstance(n, ast.Attribute) and n.attr == "nptype" for g in _referenced_region(prog, nr, depth=1) for n in ast.walk(g.node))
+    R.check(uses_nptype, "channel_data.NumpyDataReceiver::nptype storage", nr.where(),
             "numeric receivers allocate data_type.nptype", "numeric receiver does not allocate data_type.nptype")
-    # dispatch order in get_data_receiver
-    order = []
-    for n in gr.node.body:
-        if isinstance(n, ast.If):
-            order.append(unparse(n.test))
-    want_seq = ["data_type is None", "DaqMxRawData", "TimeStamp", "nptype is None"]
-    pos = []
-    for w in want_seq:
-        idx = [i for i, t in enumerate(order) if w in t]
-        pos.append(idx[0] if idx else -1)
-    R.check(all(p >= 0 for p in pos) and pos == sorted(pos), "channel_data.get_data_receiver::dispatch order", gr.where(),
-            "no type -> None, DAQmx, TimeStamp, list types, numeric", "receiver dispatch changed (%s)" % order)
+    # dispatch of get_data_receiver, scenario by scenario
+    ODT = ("attr", ("param", gr.params[0]), "data_type")
+    gv = Sym(prog, gr, None).function_value()
+    scen = [("no data type", {"dt": ODT, "cls": None, "none": True}, None),
+            ("DAQmx raw data", {"dt": ODT, "cls": "types.DaqMxRawData", "nptype": False}, "channel_data.DaqmxDataReceiver"),
+            ("timestamps", {"dt": ODT, "cls": "types.TimeStamp", "nptype": True}, "channel_data.TimestampDataReceiver"),
+            ("strings", {"dt": ODT, "cls": "types.String", "nptype": False}, "channel_data.ListDataReceiver"),
+            ("numeric", {"dt": ODT, "cls": "types.Int32", "nptype": True}, "channel_data.NumpyDataReceiver")]
+    bad = []
+    unknown = []
+    for name, sc, want in scen:
+        got = pick(gv, sc)
+        kinds = {(x[1] if x[0] == "new" else (None if x == ("const", None) else "?")) for x in got}
+        if "?" in kinds or len(kinds) != 1:
+            unknown.append("%s -> %s" % (name, sorted(str(k) for k in kinds)))
+        elif kinds != {want}:
+            bad.append("%s -> %s (expected %s)" % (name, kinds.pop(), want))
+    if bad:
+        R.violation("channel_data.get_data_receiver::dispatch order", gr.where(), "receiver dispatch changed: %s" % "; ".join(bad))
+    elif unknown:
+        R.undecided("channel_data.get_data_receiver::dispatch order", gr.where(), "dispatch not decided: %s" % "; ".join(unknown))
+    else:
+        R.ok("channel_data.get_data_receiver::dispatch order", gr.where(), "no type -> None, DAQmx, TimeStamp, list types, numeric")
 
 
 @rule("DT4", "arrays decoded with the segment's byte order are converted to native order before they are handed out", floor=3)
@@ -706,7 +772,8 @@ def ln1(ctx, R):
     um = prog.func("reader.TdmsReader._update_object_metadata")
     bi = prog.func("reader.TdmsReader._build_index")
     # every increment of num_values is the funnel applied to the current object and segment
-    incs = [n for n in walk_body(um.node) if isinstance(n, ast.AugAssign) and isinstance(n.target, ast.Attribute) and n.target.attr == "num_values"]
+    incs = [n for f_ in prog.functions.values() if f_.module.name == "reader" for n in walk_body(f_.node)
+            if isinstance(n, ast.AugAssign) and isinstance(n.target, ast.Attribute) and n.target.attr == "num_values"]
     stores = [n for f in prog.functions.values() for n in walk_body(f.node)
               if isinstance(n, (ast.AugAssign, ast.Assign)) and any(isinstance(t, ast.Attribute) and t.attr == "num_values"
                                                                    for t in (n.targets if isinstance(n, ast.Assign) else [n.target]))]
@@ -717,19 +784,27 @@ def ln1(ctx, R):
         if isinstance(n, ast.For) and isinstance(n.target, ast.Name):
             loopvar = n.target.id
     segparam = um.params[1] if len(um.params) > 1 else "segment"
+    from .sym import Sym, show
+    from .sem import match, W, mentions
     for n in stores:
         f = [x for x in prog.functions.values() if any(y is n for y in walk_body(x.node))][0]
-        key = "%s::%s" % (f.qual, unparse(n)[:70])
+        key = "%s::num_values %s" % (f.qual, "+=" if isinstance(n, ast.AugAssign) else "=")
         if f.qual == "reader.ObjectMetadata.__init__":
             R.ok(key, f.where(n), "initialised to 0")
             continue
-        v = n.value
-        good = isinstance(n, ast.AugAssign) and isinstance(n.op, ast.Add) and isinstance(v, ast.Call) and call_name(v) == "_number_of_segment_values" \
-            and len(v.args) == 2 and dotted(v.args[0]) == loopvar and dotted(v.args[1]) == segparam and f is um
+        sy = Sym(prog, f, f.cls, stack=(nsv.qual,))
+        env, _g = sy.env_at(n)
+        val = sy.expr(n.value, env)
+        tgt = n.target if isinstance(n, ast.AugAssign) else n.targets[0]
+        base = sy.expr(tgt.value, env)
+        b = match(("call", nsv.qual, (W("obj"), W("seg")), ()), val)
+        good = isinstance(n, ast.AugAssign) and isinstance(n.op, ast.Add) and b is not None and b["obj"][0] in ("bv", "param", "item") \
+            and mentions(base, b["obj"]) and f.module.name == "reader"
         R.check(good, key, f.where(n), "accumulates _number_of_segment_values(<this object>, <this segment>)",
-                "the channel length is updated by `%s`, not by _number_of_segment_values applied to the current object and segment: len(channel) "
-                "and the number of values actually delivered (which the lazy index computes through that function) can drift apart" % unparse(n))
-    calls = [c for c in walk_body(bi.node) if isinstance(c, ast.Call) and call_name(c) == "_number_of_segment_values"]
+                "the channel length is updated by `%s` (= %s), not by _number_of_segment_values applied to the current object and segment: len(channel) "
+                "and the number of values actually delivered (which the lazy index computes through that function) can drift apart" % (unparse(n), show(val)[:80]))
+    from .sem import calls_to
+    calls = calls_to(prog, bi, nsv.qual)
     R.check(bool(calls), "reader.TdmsReader._build_index::uses the funnel", bi.where(), "lazy index counts through _number_of_segment_values",
             "the lazy offset index computes per-segment counts by other means than _number_of_segment_values")
     # no other place multiplies number_values by a chunk count
